@@ -523,9 +523,9 @@ PROPS = {
     "C14": dict(streams=[("batch", 60)], proj=proj_all_api, theorems=["Properties/C14.v"], oracles=[oracle_go_checks],
                 key_ops={29, 30, 31, 32}, special="typed"),
     "C15": dict(streams=[("shrink", 180)], proj=proj_all_api, theorems=["Properties/C15.v"],
-                oracles=[oracle_shrink_invisible], key_ops={14}),
+                oracles=[oracle_shrink_invisible], key_ops={14}, special="shrinktwin"),
     "C16": dict(streams=[("reset", 150)], proj=proj_all_api, theorems=["Properties/C16.v"],
-                oracles=[oracle_reset_empty], key_ops={13}),
+                oracles=[oracle_reset_empty], key_ops={13}, special="resettwin"),
     "C17": dict(streams=[("store", 40)], proj=proj_handles, theorems=["Properties/C17.v"], oracles=[], key_ops={0, 11},
                 special="codec"),
     "C18": dict(streams=[("store", 40)], proj=proj_all_api, theorems=["Properties/C18.v"], oracles=[], key_ops={1},
